@@ -185,15 +185,31 @@ Definition vis_ok (pushed : list var) (exc : option (list var)) (q : alg) (e : e
   forallb (fun v => (memv v fv && memv v (cert q)) || (negb (memv v fv) && negb (memv v (maybe q))))
           (inter (evars e) pushed).
 
-Fixpoint scan (inex : bool) (pushed : list var) (p : alg) {struct p} : N :=
+(* does every solution of the pattern need at least one triple of the active graph? *)
+Fixpoint needs_triple (p : alg) : bool :=
+  match p with
+  | BGP ts => match ts with [] => false | _ => true end
+  | Join _ a b => needs_triple a || needs_triple b
+  | LeftJoin _ a _ _ => needs_triple a
+  | Filter _ _ _ q => needs_triple q
+  | Union a b => needs_triple a && needs_triple b
+  | Minus a _ => needs_triple a
+  | Extend _ q _ _ => needs_triple q
+  | Values _ => false
+  | Project q _ => needs_triple q
+  | Graph _ q => needs_triple q
+  | Distinct q => needs_triple q
+  end.
+
+Fixpoint scan (names : list term) (inex : bool) (pushed : list var) (p : alg) {struct p} : N :=
   match p with
   | BGP _ => 0
   | Values _ => 0
   | Join lz a b =>
       (if negb lz && negb inex && may_dup b then 3 else 0)
       |>| (if lz && forgets a && nonempty pushed then 4 else 0)
-      |>| scan inex pushed a
-      |>| scan inex (if lz then pushed ++ maybe a else pushed) b
+      |>| scan names inex pushed a
+      |>| scan names inex (if lz then pushed ++ maybe a else pushed) b
   | LeftJoin pv a b e =>
       (if forgets a && nonempty pushed then 4 else 0)
       |>| (if nonempty (inter (inter (evars e) pushed) (maybe a ++ maybe b)) then 5 else 0)
@@ -206,46 +222,50 @@ Fixpoint scan (inex : bool) (pushed : list var) (p : alg) {struct p} : N :=
                       || (subsetv (inter vs pushed) (cert a) && nonempty (cert a)))
                then 0 else 6
            end)
-      |>| scan inex pushed a
-      |>| scan inex (pushed ++ maybe a) b
-      |>| scan_e (pushed ++ maybe a ++ maybe b) e
+      |>| scan names inex pushed a
+      |>| scan names inex (pushed ++ maybe a) b
+      |>| scan_e names (pushed ++ maybe a ++ maybe b) e
   | Filter nis fv e q =>
       (if nis || vis_ok pushed fv q e then 0 else 7)
       |>| (if negb nis && has_exists e && nonempty pushed && negb (nonempty (cert q))
               && nonempty (inter (evars e) pushed) then 10 else 0)
       |>| (if and_order false e then 8 else 0)
-      |>| scan inex pushed q
-      |>| scan_e (if nis then pushed ++ maybe q
+      |>| scan names inex pushed q
+      |>| scan_e names (if nis then pushed ++ maybe q
                   else inter pushed (match fv with Some l => l | None => [] end) ++ maybe q) e
-  | Union a b => scan inex pushed a |>| scan inex pushed b
+  | Union a b => scan names inex pushed a |>| scan names inex pushed b
   | Minus a b =>
       (if negb (nonempty pushed)
           || (subsetv (inter (allvars b) pushed) (cert a) && nonempty (inter (cert a) (cert b)))
        then 0 else 2)
-      |>| scan inex pushed a |>| scan inex pushed b
+      |>| scan names inex pushed a |>| scan names inex pushed b
   | Extend xv q v e =>
       (if memv v pushed || memv v (maybe q) then 1 else 0)
       |>| (if vis_ok pushed xv q e then 0 else 7)
       |>| (if has_exists e && nonempty pushed && negb (nonempty (cert q))
               && nonempty (inter (evars e) pushed) then 10 else 0)
       |>| (if and_order true e then 8 else 0)
-      |>| scan inex pushed q
-      |>| scan_e (inter pushed (match xv with Some l => l | None => [] end) ++ maybe q) e
+      |>| scan names inex pushed q
+      |>| scan_e names (inter pushed (match xv with Some l => l | None => [] end) ++ maybe q) e
   | Project q vs =>
       (if subsetv (inter pushed (allvars q)) vs then 0 else 4)
-      |>| scan inex pushed q
-  | Graph _ q => scan inex pushed q
-  | Distinct q => scan inex pushed q
+      |>| scan names inex pushed q
+  | Graph gt q =>
+      (if negb (needs_triple q)
+          && match gt with Tm t => negb (existsb (N.eqb t) names) | Vr v => memv v pushed end
+       then 11 else 0)
+      |>| scan names inex pushed q
+  | Distinct q => scan names inex pushed q
   end
-with scan_e (pushed : list var) (e : expr) {struct e} : N :=
+with scan_e (names : list term) (pushed : list var) (e : expr) {struct e} : N :=
   match e with
-  | ECmp _ a b | EAnd a b | EOr a b => scan_e pushed a |>| scan_e pushed b
-  | ENot a => scan_e pushed a
-  | EExists _ p => scan true pushed p
+  | ECmp _ a b | EAnd a b | EOr a b => scan_e names pushed a |>| scan_e names pushed b
+  | ENot a => scan_e names pushed a
+  | EExists _ p => scan names true pushed p
   | _ => 0
   end.
 
 Definition kf (c : case) : N :=
   let p := c_alg c in
-  scan false [] p
+  scan (map fst (ds_named (c_ds c))) false [] p
   |>| (if nonempty (inter (bool_vars p) (cmp_vars p)) then 9 else 0).
